@@ -260,7 +260,8 @@ pub fn run_check<E: Engine>(e: &E, opts: &Opts) -> Summary {
     for (i, r) in results.iter().enumerate() {
         let r = r.as_ref().unwrap();
         for (k, v) in &r.stats.counters {
-            *counters.entry(k.clone()).or_insert(0) += v;
+            let c = counters.entry(k.clone()).or_insert(0);
+            *c = c.saturating_add(*v);
         }
         oracle_evals += r.stats.oracle_evals;
         if r.stats.oracle_evals > 0 {
